@@ -121,6 +121,9 @@ def run(ctx):
         res = normalize(im)
         d = compare_cells(st["out"], vals2d(res), *nshape)
         ctx.case(("normalize", a.tobytes()), nontrivial=len(set(a.ravel())) > 1)
+        # the same image in other units (picowatts ... gigacounts): the specification's answer does not change
+        for unit in (1e-12, 1e-6, 1e9):
+            d = max(d, compare_cells(st["out"], vals2d(normalize(mk(a * unit))), *nshape))
         bad = d > tol or not meta_kept(im, res) or not fp.same(im, before)
         # idempotence and scale invariance on the real function
         d2 = quant.reldiff(vals2d(normalize(res)), vals2d(res))
@@ -203,6 +206,39 @@ def run(ctx):
         else:
             ctx.trace_ok()
     ctx.sample({"tool": "bg_correct", "raw": raw.tolist(), "bg": bg.tolist(), "dark": dk.tolist()})
+    # a dead pixel of the denominator (background = dark there, both alive): (raw - dark) / (background - dark) with
+    # that one denominator replaced by the mean of its neighbours (four inside, two along an edge)
+    for shape_, dead in (((3, 3), (1, 1)), ((4, 3), (2, 1)), ((3, 4), (0, 2)), ((4, 4), (3, 1)), ((5, 4), (2, 2))):
+        for hot in (0.0, 7.0):
+            nprng_ = np.random.default_rng(rng.randrange(2 ** 31))
+            raw = nprng_.uniform(5, 9, size=shape_)
+            dk = nprng_.uniform(0.5, 1.5, size=shape_)
+            bg = dk + nprng_.uniform(3, 6, size=shape_)
+            dk[dead] = hot
+            bg[dead] = hot
+            den = bg - dk
+            i, j = dead
+            nb = []
+            if 0 < i < shape_[0] - 1 and 0 < j < shape_[1] - 1:
+                nb = [den[i - 1, j], den[i + 1, j], den[i, j - 1], den[i, j + 1]]
+            elif i in (0, shape_[0] - 1):
+                nb = [den[i, j - 1], den[i, j + 1]]
+            else:
+                nb = [den[i - 1, j], den[i + 1, j]]
+            den2 = den.copy()
+            den2[dead] = sum(nb) / len(nb)
+            want = (raw - dk) / den2
+            ctx.case(("bg", "dead_denominator", shape_, dead, hot), nontrivial=True)
+            try:
+                got = vals2d(bg_correct(mk(raw), mk(bg, name="bg"), mk(dk, name="dark")))
+            except Exception as e:
+                ctx.violation("bg_correct/dead_denominator/exception", {"shape": shape_, "dead": dead, "exc": repr(e)[:200]})
+                continue
+            if got.shape != want.shape or not np.all(np.isfinite(got)) or float(np.max(np.abs(got - want))) > 1e-12:
+                ctx.violation("bg_correct/dead_denominator", {"shape": shape_, "dead": dead, "hot_value": hot,
+                                                              "got": got.tolist(), "want": want.tolist()})
+            else:
+                ctx.trace_ok()
     r_none = data_grid(np.array([[2.0, 4.0], [6.0, 8.0]]), spacing=0.1, medium_index=1.33,
                        illum_wavelen=0.66, illum_polarization=(1, 0), name="img")
     res = bg_correct(r_none, mk(np.full((2, 2), 2.0), spacing=0.1, noise_sd=0.01))
